@@ -61,6 +61,17 @@ def handleFnGen : Handler := fun st op args =>
     some (st, match Gen.flood (Gen.precompute n.toNat) (BitVec.ofInt 64 w) (BitVec.ofInt 64 s) with
       | some v => toString v.toNat
       | none => "fuel")
+  | "fn.dims", some [n, x] =>
+    let c := Gen.precompute n.toNat
+    let bits := BitVec.ofInt 64 x
+    -- the four loops carry whitelist fuel; `fuel` if one of them did not reach its exit condition
+    let b0 := Gen.dimensions_loop0 bits 70 c.L
+    let b2 := Gen.dimensions_loop2 bits c 70 c.T
+    let bad := bits != 0#64 && (Gen.dimensions_loop0_more bits b0 || Gen.dimensions_loop2_more bits c b2 ||
+      Gen.dimensions_loop1_more bits (Gen.dimensions_loop1 bits 70 (b0, 0)) ||
+      Gen.dimensions_loop3_more bits c (Gen.dimensions_loop3 bits c 70 (b2, 0)))
+    let (w, h) := Gen.dimensions c bits
+    some (st, if bad then "fuel" else s!"{w} {h}")
   | "fn.popcount", some [x] =>
     some (st, s!"{Gen.popcount64 (BitVec.ofInt 64 x)} {Gen.trailingZeros64 (BitVec.ofInt 64 x)}")
   | "fn.piece", some [c, k, p] =>
